@@ -67,39 +67,63 @@ Theorem C17_tunnel_registry_tid_replacement_refuted :
 Proof. exact treg_tid_skip_refuted. Qed.
 Print Assumptions C17_tunnel_registry_tid_replacement_refuted.
 
-(* ---- control-connection cap (one step per operation; a new id at the cap evicts the oldest, a present id is replaced) ---- *)
+(* ---- control-connection cap (one step per operation; model cregx_apply: connMap + the identity each connection carries +
+   the client index, as of /repo eb41b39; `authevict` = UpdateAuth removes the connection the client id resolved to — the
+   theorems hold for both values, i.e. on both sides of that commit) ---- *)
 Theorem C17_control_registry_never_exceeds :
-  forall (max : nat) (m : list (N * N)) (ts : list rloc) (sched : list nat),
-  NoDup (keys m) /\ (0 < max -> length m <= max) ->
-  let m' := fst (rrun (creg_apply max) m ts sched) in
+  forall (authevict : bool) (max : nat) (r : cregx) (ts : list xloc) (sched : list nat),
+  NoDup (keys (x_map r)) /\ (0 < max -> length (x_map r) <= max) ->
+  let m' := x_map (fst (xrun (cregx_apply authevict max) r ts sched)) in
   NoDup (keys m') /\ (0 < max -> length m' <= max).
-Proof. exact client_registry_never_exceeds. Qed.
+Proof. exact control_registry_never_exceeds. Qed.
 Print Assumptions C17_control_registry_never_exceeds.
 
 (* a NEW ConnID at the cap: an entry with the minimal CreatedAt is evicted, the new one is in, the count does not grow *)
 Theorem C17_control_registry_evicts_oldest :
-  forall max id t m, id <> 0%N -> ~ In id (keys m) -> at_cap max (length m) = true ->
-  exists old, In old m /\ (forall e, In e m -> (snd old <= snd e)%N) /\
-              fst (creg_apply max (RReg id t) m) = REvicted (fst old) /\
-              In id (keys (snd (creg_apply max (RReg id t) m))) /\
-              ~ In (fst old) (keys (snd (creg_apply max (RReg id t) m))) /\
-              length (snd (creg_apply max (RReg id t) m)) <= length m.
-Proof. exact creg_evicts_oldest. Qed.
+  forall b max id t cl r, id <> 0%N -> ~ In id (keys (x_map r)) -> at_cap max (length (x_map r)) = true ->
+  exists old, In old (x_map r) /\ (forall e, In e (x_map r) -> (snd old <= snd e)%N) /\
+              fst (cregx_apply b max (XReg id t cl) r) = REvicted (fst old) /\
+              In id (keys (x_map (snd (cregx_apply b max (XReg id t cl) r)))) /\
+              ~ In (fst old) (keys (x_map (snd (cregx_apply b max (XReg id t cl) r)))) /\
+              length (x_map (snd (cregx_apply b max (XReg id t cl) r))) <= length (x_map r).
+Proof. exact cregx_evicts_oldest. Qed.
 Print Assumptions C17_control_registry_evicts_oldest.
 
 (* a ConnID that already has a record (/repo c61cb06): replacement — accepted, same key set, same count, nobody evicted,
    at the cap or not *)
 Theorem C17_control_registry_replace_keeps_count :
-  forall max id t m, id <> 0%N -> NoDup (keys m) -> In id (keys m) ->
-  fst (creg_apply max (RReg id t) m) = ROk /\
-  length (snd (creg_apply max (RReg id t) m)) = length m /\
-  (forall k, In k (keys (snd (creg_apply max (RReg id t) m))) <-> In k (keys m)).
-Proof. exact creg_replace_keeps. Qed.
+  forall b max id t cl r, id <> 0%N -> NoDup (keys (x_map r)) -> In id (keys (x_map r)) ->
+  fst (cregx_apply b max (XReg id t cl) r) = ROk /\
+  length (x_map (snd (cregx_apply b max (XReg id t cl) r))) = length (x_map r) /\
+  (forall k, In k (keys (x_map (snd (cregx_apply b max (XReg id t cl) r)))) <-> In k (keys (x_map r))).
+Proof. exact cregx_replace_keeps. Qed.
 Print Assumptions C17_control_registry_replace_keeps_count.
 
+(* UpdateAuth(c, k) (/repo eb41b39): the registered set afterwards is the old one, or the old one minus ONE other connection
+   (the one client k resolved to); c itself stays; the count never grows and drops by at most one *)
+Theorem C17_control_registry_updateauth_shrinks_by_at_most_one :
+  forall b max id cl r,
+  (x_map (snd (cregx_apply b max (XAuth id cl) r)) = x_map r \/
+   exists old, old <> id /\ x_map (snd (cregx_apply b max (XAuth id cl) r)) = del (x_map r) old) /\
+  (In id (keys (x_map r)) -> In id (keys (x_map (snd (cregx_apply b max (XAuth id cl) r))))) /\
+  (NoDup (keys (x_map r)) ->
+   length (x_map (snd (cregx_apply b max (XAuth id cl) r))) <= length (x_map r) /\
+   length (x_map r) <= S (length (x_map (snd (cregx_apply b max (XAuth id cl) r))))).
+Proof. intros b max id cl r. exact (conj (cregx_auth_map b max id cl r) (conj (cregx_auth_keeps_self b max id cl r) (cregx_auth_shrinks b max id cl r))). Qed.
+Print Assumptions C17_control_registry_updateauth_shrinks_by_at_most_one.
+
+(* non-vacuity of the UpdateAuth eviction: two logins of client 7 — with eb41b39 only the second connection is left, before
+   it both stayed registered *)
+Theorem C17_control_registry_relogin_witness :
+  let ops := [XReg 1 10 0; XAuth 1 7; XReg 2 20 0; XAuth 2 7] in
+  keys (x_map (fold_left (fun r o => snd (cregx_apply true 5 o r)) ops x_empty)) = [2%N] /\
+  keys (x_map (fold_left (fun r o => snd (cregx_apply false 5 o r)) ops x_empty)) = [2%N; 1%N].
+Proof. exact cregx_relogin_witness. Qed.
+Print Assumptions C17_control_registry_relogin_witness.
+
 Theorem C17_control_registry_refused_changes_nothing :
-  forall max o m, fst (creg_apply max o m) = RRefused -> snd (creg_apply max o m) = m.
-Proof. exact creg_refused_unchanged. Qed.
+  forall b max o r, fst (cregx_apply b max o r) = RRefused -> snd (cregx_apply b max o r) = r.
+Proof. exact cregx_refused_unchanged. Qed.
 Print Assumptions C17_control_registry_refused_changes_nothing.
 
 (* removeConnectionLocked with the client index explicit: after removing connection c, c is NOT in connMap — whatever the
@@ -136,8 +160,8 @@ Proof. exact creg_split_refuted. Qed.
 Print Assumptions C17_control_registry_split_refuted.
 
 Theorem C17_control_registry_atomic_witness :
-  forall sched, length (fst (rrun (creg_apply 2) [(1, 1); (2, 2)]%N
-                                  [{| r_todo := [RReg 3 3]; r_log := [] |}; {| r_todo := [RReg 4 4]; r_log := [] |}] sched)) <= 2.
+  forall b sched, length (x_map (fst (xrun (cregx_apply b 2) {| x_map := [(1, 1); (2, 2)]%N; x_ident := []; x_index := [] |}
+                                  [{| xl_todo := [XReg 3 3 0]; xl_log := [] |}; {| xl_todo := [XReg 4 4 0]; xl_log := [] |}] sched))) <= 2.
 Proof. exact creg_atomic_witness. Qed.
 Print Assumptions C17_control_registry_atomic_witness.
 
